@@ -483,6 +483,9 @@ class NP:
         if isinstance(c, GVec):
             av = a.val if isinstance(a, GVec) else a
             bv = b.val if isinstance(b, GVec) else b
+            if isinstance(av, str) or isinstance(bv, str):
+                from .frames import _ite_any
+                return c._new(_ite_any(sym.to_bool(c.val), av, bv))
             return c._new(ite(c.val, av, bv))
         if _has_sym(c) or _has_sym(a) or _has_sym(b):
             ca, aa, ba = _np.broadcast_arrays(obj(c), obj(a), obj(b))
